@@ -24,8 +24,11 @@
 
   NOT modelled: no-go zones (`process_rows` with intersections, `not_inside`), perimeter placement
   (`two_space_gen_bhc`, `perimeter_distribute`, `remove_points_too_close`), a negative
-  `intersection_tolerance`, and `rotate = -pi/2` in floating point (there `cos` is 6e-17, not 0, and
-  the code works with a row of slope -8e15; the model's `(0, -1)` is the exact vertical row).
+  `intersection_tolerance`.  `rotate = -pi/2` in floating point has cos = 6e-17, not 0: with the source test
+  `row_space[1] == 0` (verticalRowRatio = 0) the code then works with a row of slope -8e15 and the model's
+  exact vertical row `(0, -1)` does not describe it; with `abs(row_space[1]) <= 1e-12*abs(row_space[0])` it does.
+  Exact rotations in the band `0 < |c| ≤ K·|s|` (row declared vertical although not vertical) are outside the
+  theorems (hypothesis `c = 0 ∨ K·|s| < |c|`); no floating-point sweep reaches the band except through ±pi/2.
 -/
 import GHEVerif.Model.Py
 import GHEVerif.Gen.RowWise
@@ -234,11 +237,14 @@ def rowStep (poly : List Pt) (c s tol space : Rat) (row : Seg) (acc : List Pt) :
     | [p] => .ok (pushNew acc p)
     | _ => oddLoop poly c s space f acc
 
-/-- The two points defining row `k`. -/
+/-- The two points defining row `k`.  The row is vertical when `|row_space[1]| ≤ K·|row_space[0]|`
+    with `K = Gen.RowWise.verticalRowRatio` regenerated from the source: `K = 0` is the test
+    `row_space[1] == 0`; `K = 1e-12` makes `rotate = -pi/2` (cos = 6e-17 in floating point) a vertical
+    row like `rotate = +pi/2`.  With exact `(c, s)` this is `|c| ≤ K·|s|`. -/
 def rowSeg (lowest : Pt) (rs0 rs1 : Rat) (k : Nat) : Seg :=
   let px := lowest.1 + (k : Rat) * rs0
   let py := lowest.2 + (k : Rat) * rs1
-  if rs1 = 0 then ⟨px, py, px, py + Gen.RowWise.pointShift⟩
+  if ratAbs rs1 ≤ Gen.RowWise.verticalRowRatio * ratAbs rs0 then ⟨px, py, px, py + Gen.RowWise.pointShift⟩
   else ⟨px, py, px + Gen.RowWise.pointShift, py + (-rs0 / rs1) * Gen.RowWise.pointShift⟩
 
 def rowsLoop (poly : List Pt) (c s tol space : Rat) (lowest : Pt) (rs0 rs1 : Rat) :
